@@ -62,14 +62,46 @@ def judgeEnc (v : Nat) (f : Frame) (impl : String) : String :=
     | _, _ => "viol:unparseable-output"
   | _ => if within then "viol:encode-failed-within-limits" else "ok"
 
-def judgeDec (data : Bytes) (impl : String) : String :=
+/-- model side of the re-encode probe of a `dec` op -/
+def showReencode (v : Nat) (data : Bytes) : String :=
+  match decodeFrame v data with
+  | .ok f _ =>
+    match encodeFrame v f with
+    | .error .err => " ; re=encerr"
+    | .error .panic => " ; re=encpanic"
+    | .ok bs => s!" ; re=ok len={bs.length} ; " ++ showDec v bs
+  | _ => ""
+
+/-- `dec` on arbitrary bytes, judged on the implementation's output: consumed bounds, and
+    — whenever the frame the implementation decoded is within the protocol limits (it is
+    parsed back from the implementation's own text) — the round trip of THAT frame:
+    it must re-encode, to at most the bytes consumed, and decode again to its normal form. -/
+def judgeDec (v : Nat) (data : Bytes) (impl : String) : String :=
   if impl = "need" ∨ impl = "err" then "ok" else
-  match splitDec impl with
+  let parts := impl.splitOn " ; "
+  match splitDec (parts.headD "") with
   | none => "viol:unparseable-output"
-  | some (_, n, _, _) =>
+  | some (frText, n, _, _) =>
     if n = 0 then "viol:no-progress-with-frame"
     else if n > data.length then "viol:consumed-more-than-given"
-    else "ok"
+    else
+      match parseFrame (fields frText) with
+      | none => "ok"                       -- long fields are shown as digests: not re-parsable, not judged
+      | some f =>
+        if !decide (WithinLimits v f) then "ok" else
+        match parts with
+        | [_, re, d2] =>
+          match fields re with
+          | ["re=ok", l] =>
+            match (valOf l).toNat?, splitDec d2 with
+            | some len, some (fr2, n2, _, _) =>
+              if len > n then "viol:reencode-longer-than-consumed"
+              else if n2 ≠ len then "viol:reencode-consumed-mismatch"
+              else if fr2 ≠ showFrame (norm v f) then "viol:reencode-roundtrip-mismatch"
+              else "ok"
+            | _, _ => "viol:reencode-decode-failed"
+          | _ => "viol:reencode-failed-within-limits"
+        | _ => "viol:reencode-failed-within-limits"
 
 def c22Step (_ : Unit) (op impl : String) : Unit × String × String :=
   let bad := ((), "bad-op", "ok")
@@ -89,7 +121,7 @@ def c22Step (_ : Unit) (op impl : String) : Unit × String × String :=
     match vs.toNat?, parseBytes hs with
     | some v, some data =>
       if v > 255 ∨ data.isEmpty then bad else
-      ((), showDec v data, judgeDec data impl)
+      ((), showDec v data ++ showReencode v data, judgeDec v data impl)
     | _, _ => bad
   | ["var", ns, rs] =>
     if !rs.startsWith "rest=" then bad else
